@@ -67,7 +67,16 @@ func c13Stmt(r *simrt.RNG, depth int) string {
 		n = 1000 + r.Intn(1000000) // identifiers this process has most likely never seen
 	}
 	a, b := 1+r.Intn(5), 1+r.Intn(5)
-	switch r.Intn(14) {
+	switch r.Intn(16) {
+	case 15:
+		// the same constant text in both quote styles: an escaped double quote is fine between
+		// double quotes and a lexical error between single quotes
+		if r.Bool(0.5) {
+			return fmt.Sprintf("qs%d := \"x%d\\\"y\"", n, a%2)
+		}
+		return fmt.Sprintf("qs%d := 'x%d\\\"y'", n, a%2)
+	case 14:
+		return fmt.Sprintf("import \"lib.ecal\" as lb%d\nu%d := lb%d.pair[0] + lb%d.twice(%d)", n, n, n, n, a)
 	case 13:
 		// a loop whose number of iterations shows in the result
 		return fmt.Sprintf("w%d := 0\nfor i in range(1, %d) {\n    w%d := w%d + i\n}\nw%d", n, a+1, n, n, n)
@@ -155,7 +164,7 @@ func c13Text(r *simrt.RNG) string {
 
 func c13Gen(r *simrt.RNG, tier string) interface{} {
 	p := &c13Plan{Shared: r.Bool(0.5), RefAfter: r.Bool(0.4), Names: r.Bool(0.5)}
-	p.Files = map[string]string{"lib.ecal": "func twice(x) {\n    if x > 0 {\n        return {\"v\": x * 2}.v\n    }\n    return 0\n}\n"}
+	p.Files = map[string]string{"lib.ecal": "func twice(x) {\n    if x > 0 {\n        return {\"v\": x * 2}.v\n    }\n    return 0\n}\n[pa, pb] := [1, 2]\nlet [pc, pd] := [pa + 1, pb + 1]\npair := [pc, pd]\nfor [k, v] in {\"a\": 1, \"b\": 2} {\n    pair := [pair[0] + v, pair[1]]\n}\n"}
 	nt := 3 + r.Intn(6)
 	for i := 0; i < nt; i++ {
 		p.Corpus = append(p.Corpus, c13Text(r))
